@@ -13,6 +13,7 @@ def main (args : List String) : IO UInt32 := do
   match args with
   | ["rwmutex-spec"] => loop stdin stdout RWMutexSpecD.stepSpec []; return 0
   | ["engine-spec"] => loop stdin stdout EngineSpec.step {}; return 0
+  | ["crash-spec"] => loop stdin stdout EngineSpec.step {}; return 0
   | ["replica-spec"] => loop stdin stdout EngineSpec.step {}; return 0
   | ["codec-spec"] => loop stdin stdout CodecSpec.step (); return 0
   | _ =>
